@@ -550,7 +550,7 @@ def full_observation(db: Any, case: Dict[str, Any], prefix: str, keep: List[int]
         o["decode"] = []
         if "svc" in case["cats"]:
             for ni in range(len(case["names"])):
-                for who in list(range(len(case["types"]))) + [0xEE]:
+                for who in keep + [0xEE]:  # (requests of the layers that exist in both databases)
                     oc, found = decode_probe(l, eh.request_bytes(ni, who))
                     o["decode"].append((ni, who, oc, [f.replace(prefix, "", 1) for f in found]))
         out.append(o)
